@@ -39,15 +39,17 @@ PROP = "C13"
 META = {
     "level": "fault_enumeration",
     "technique": "close cause x close point enumeration per script; per-future state machine + cursor model deciding satisfiable-from-buffer",
-    "level_text": "For generated operation scripts every token boundary is used as close point for each close cause (local close in 4 spellings, peer EOF, peer reset, injected read error after k reads, injected write errors); after quiescence every read/write/connect future must be settled, reads pending at close must hold data iff the bytes fetched so far satisfy them, failures must be StreamClosedError carrying the cause, the close callback must have run exactly once with all futures done, a second close() must be a no-op, and later writes/connect-time writes must not succeed. Connect scripts are enumerated exhaustively over three unix-address kinds.",
-    "level_note": "Close points are token boundaries of the harness script (quiescent points and not-yet-settled arrivals), not arbitrary instructions; ERROR-event closes (get_fd_error) are unreachable with the asyncio-based IOLoop and are not exercised; a read call that raises the injected transport error synchronously is UNSPECIFIED; post-close reads may fail even if buffered data would satisfy them (only success is constrained).",
+    "level_text": "For generated operation scripts every token boundary is used as close point for each close cause (local close in 4 spellings, peer EOF, peer reset, injected read error after k reads, injected write errors); after quiescence every read/write/connect future must be settled, reads pending at close must hold data iff the bytes fetched so far satisfy them, failures must be StreamClosedError carrying the cause, the close callback must have run exactly once with all futures done, a second close() must be a no-op, and later writes/connect-time writes must not succeed. Connect scripts are enumerated exhaustively over three unix-address kinds. Every read/write script is also run in a variant where the application cancels read/write futures it holds (fut.cancel() or a timed-out asyncio.wait_for) while they are still registered in the stream, usually with another write pending behind them, and connect scripts may cancel the connect or a write future: the cancelled future is exempt, every other future must still be settled by the close, close() must return normally and the close callback must run exactly once.",
+    "level_note": "Close points are token boundaries of the harness script (quiescent points and not-yet-settled arrivals), not arbitrary instructions; ERROR-event closes (get_fd_error) are unreachable with the asyncio-based IOLoop and are not exercised; a read call that raises the injected transport error synchronously is UNSPECIFIED; post-close reads may fail even if buffered data would satisfy them (only success is constrained); after the application cancelled a read the cursor model is no longer applied to later reads (the stream keeps consuming for the cancelled read), and the CancelledError record asyncio logs for write()'s own done-callback when the application cancels a write future is set aside (it is produced by the cancel, not by the close).",
     "design_ref": "DESIGN.md §4 C13",
     "engine": "wire",
 }
 RULE = ("rw case = (script of <=5 read/write ops with arrival tokens, close cause, close position); every position "
         "0..len(script) x every cause is run for each script; non-trivial = the stream closed through the cause and at "
         "least one future was failed or satisfied by the close; connect case = (address kind, callback?, order of "
-        "connect/write/close/settle/read tokens) enumerated exhaustively; distinct by whole case")
+        "connect/write/close/settle/read tokens) enumerated exhaustively; distinct by whole case; each rw script also yields a cancellation variant with "
+        "('C', read|write, cancel|wait_for) tokens inserted after read/write tokens (and often a further write), "
+        "enumerated over the same close points x causes")
 FLOORS = {"quick": 1500, "thorough": 60000}
 ASSUMPTIONS = [
     "cursor model of the read contracts is correct (shared with C11)",
@@ -60,7 +62,9 @@ REQUIRED_COUNTERS = ["oracle_evals", "closed_by_cause", "pending_read_failed_at_
                      "pending_write_failed_at_close", "post_close_write_refused", "close_callback_checked",
                      "real_error_checked", "second_close_checked", "connect_resolved", "connect_failed_at_close",
                      "connect_failed_refused", "cause:close", "cause:close_exc", "cause:eof", "cause:reset",
-                     "cause:eio", "cause:epipe"]
+                     "cause:eio", "cause:epipe", "cancelled_read", "cancelled_write", "cancelled_connect",
+                     "closed_with_cancelled_read_registered", "pending_failed_at_close_with_cancelled_sibling",
+                     "close_callback_checked_after_cancel", "local_close_returned"]
 
 CAUSES = [("close",), ("close_exc",), ("close_tuple",), ("close_true",), ("eof",), ("reset",),
           ("eio", 0), ("eio", 2), ("epipe", 0), ("wio", 0)]
@@ -72,7 +76,8 @@ class Boom(Exception):
 
 def EXHAUSTIVE(tier):
     return ("per script: every close position x every close cause (10 variants); connect scripts: every ordered "
-            "selection of <=3 tokens from {write small, write big, close, close(exc), settle, read} after connect x "
+            "selection of <=3 tokens from {write small, write big, close, close(exc), settle, read, cancel connect future, "
+            "cancel last pending write future} after connect x "
             "3 address kinds x callback set/unset")
 
 
@@ -153,9 +158,43 @@ def gen_script(rng):
             "cb": rng.choice(["early", "early", "none", "late"]), "small_sndbuf": rng.random() < 0.8}
 
 
+def add_cancels(sc, rng):
+    """Variant of a script in which the application cancels futures it still holds: after a read / write token
+    (optionally after a settle, as a timed-out wait_for would) a ("C", which, how) token cancels the most recent
+    pending read / write future; often another write is issued afterwards so that something else is pending."""
+    toks = []
+    n = 0
+    for t in sc["toks"]:
+        toks.append(t)
+        if t[0] in ("R", "W") and rng.random() < (0.55 if t[0] == "R" else 0.4):
+            if rng.random() < 0.4:
+                toks.append(("S",))
+            toks.append(("C", "read" if t[0] == "R" else "write", rng.choice(["cancel", "cancel", "wait_for"])))
+            n += 1
+            r = rng.random()
+            if r < 0.45:
+                toks.append(("W", rng.choice(["big", "big", "small"])))
+                if rng.random() < 0.3:
+                    toks.append(("S",))
+            elif r < 0.55:
+                toks.append(("C", rng.choice(["read", "write"]), "cancel"))
+    if not n:
+        cand = [i for i, t in enumerate(toks) if t[0] in ("R", "W")]
+        if cand:
+            i = rng.choice(cand)
+            toks[i + 1:i + 1] = [("C", "read" if toks[i][0] == "R" else "write", "cancel"), ("W", "big")]
+        else:
+            toks += [("R", ("bytes", len(sc["S"]) + 3, False)), ("C", "read", "wait_for"), ("W", "big")]
+    out = dict(sc)
+    out["toks"] = toks
+    out["cb"] = rng.choice(["early", "early", "late", sc["cb"]])
+    return out
+
+
 def conn_scripts():
     import itertools
-    pool = [("W", "small"), ("W", "big"), ("X", ("close",)), ("X", ("close_exc",)), ("S",), ("R", ("bytes", 1, True))]
+    pool = [("W", "small"), ("W", "big"), ("X", ("close",)), ("X", ("close_exc",)), ("S",), ("R", ("bytes", 1, True)),
+            ("C", "connect", "cancel"), ("C", "write", "cancel")]
     for target in ("listen", "refuse", "missing"):
         for cb in (True, False):
             for n in range(0, 4):
@@ -181,14 +220,16 @@ def gen_cases(spec):
                 yield c
         return
     rng = core.rng_for(spec["seed"], PROP, f"rw{spec['j']}")
+    rng2 = core.rng_for(spec["seed"], PROP, f"cx{spec['j']}")
     for _ in range(spec["scripts"]):
-        sc = gen_script(rng)
-        n = len(sc["toks"])
-        for k in range(n + 1):
-            for cause in CAUSES:
-                case = dict(sc)
-                case.update({"kind": "rw", "k": k, "cause": cause})
-                yield case
+        base = gen_script(rng)
+        for sc in (base, add_cancels(base, rng2)):
+            n = len(sc["toks"])
+            for k in range(n + 1):
+                for cause in CAUSES:
+                    case = dict(sc)
+                    case.update({"kind": "rw", "k": k, "cause": cause})
+                    yield case
 
 
 def directed_cases():
@@ -201,6 +242,13 @@ def directed_cases():
     # writes queued behind a blocked big write, closed by an injected EPIPE
     yield {"kind": "rw", "S": b"abcdef", "toks": [("W", "big"), ("W", "small"), ("S",), ("P",)],
            "chunk": 16, "plan": None, "cb": "late", "small_sndbuf": True, "k": 3, "cause": ("epipe", 0)}
+    # a read whose wait_for timed out (future cancelled, still registered), a blocked write behind it, then the close
+    for cause in (("close",), ("close_exc",), ("eof",), ("reset",), ("epipe", 0)):
+        yield {"kind": "rw", "S": b"abcdef", "toks": [("R", ("bytes", 10, False)), ("C", "read", "wait_for"), ("W", "big"), ("S",)],
+               "chunk": 16, "plan": None, "cb": "early", "small_sndbuf": True, "k": 4, "cause": cause}
+    # a cancelled write future with a second write queued behind it
+    yield {"kind": "rw", "S": b"abcdef", "toks": [("W", "big"), ("C", "write", "cancel"), ("W", "small"), ("S",)],
+           "chunk": 16, "plan": None, "cb": "late", "small_sndbuf": True, "k": 4, "cause": ("close",)}
 
 
 # --------------------------------------------------------------------------
@@ -299,6 +347,8 @@ class Run:
         self.events = 0            # futures failed/satisfied by the close
         self.connect = None
         self.st = None
+        self.cancels = 0           # futures the application cancelled while still pending
+        self.ghost_read = False    # a cancelled read is still registered in the stream
 
     def bad(self, mech, what, extra=None):
         self.ok = False
@@ -338,10 +388,92 @@ class Run:
             self.bad(f"{what}/real-error-mismatch", "StreamClosedError.real_error is not the error that closed the stream",
                      dict(detail, real_error=repr(e.real_error)))
 
+    # ---- application-side cancellation ---------------------------------
+    def pick_cancel(self, which):
+        """-> (kind, entry) of the most recent future of that kind that is still pending, or None."""
+        if which == "connect":
+            cf = self.connect
+            if cf is not None and cf["fut"] is not None and not cf["fut"].done():
+                return ("connect", cf)
+            return None
+        pool = self.reads if which == "read" else self.writes
+        for ent in reversed(pool):
+            if ent["state"] == "pending" and ent["fut"] is not None and not ent["fut"].done():
+                return (which, ent)
+        return None
+
+    def mark_cancelled(self, st, kind, ent):
+        if not ent["fut"].cancelled():
+            self.ctx.count("cancel_lost_race_future_completed_first")
+            return
+        self.cancels += 1
+        self.ctx.count("cancelled_" + kind)
+        if kind == "connect":
+            ent["cancelled"] = True
+            return
+        ent["state"] = "cancelled"
+        if kind == "read":
+            # the stream keeps the cancelled read registered: it goes on consuming bytes for it (or drops it at
+            # close), so the cursor model no longer knows where the next read starts
+            self.aligned = False
+            self.ghost_read = not st.closed() and st.reading()
+
+    async def cancel(self, st, which, how):
+        tgt = self.pick_cancel(which)
+        if tgt is None:
+            self.ctx.count("cancel_noop_nothing_pending")
+            return
+        kind, ent = tgt
+        if how == "wait_for":
+            try:
+                await asyncio.wait_for(ent["fut"], 0.05)
+            except (asyncio.TimeoutError, asyncio.CancelledError):
+                pass
+            except Exception:
+                pass
+        else:
+            ent["fut"].cancel()
+        self.mark_cancelled(st, kind, ent)
+
+    def uncaught_logs(self):
+        """Uncaught-exception log records, minus the one artefact of the application's own cancel: write() attaches
+        `lambda f: f.exception()` to its future, which logs CancelledError when the *application* cancels that
+        future -- at cancel time, whether or not the stream ever closes, so it is not an outcome of the close
+        (UNSPECIFIED here; at most one such record per cancelled write is set aside)."""
+        out, spare = [], sum(1 for w in self.writes if w["state"] == "cancelled")
+        for r in self.lm.uncaught():
+            if spare and r.get("exc") == "CancelledError" and "BaseIOStream.write.<locals>.<lambda>" in r["msg"] \
+                    and "<Future cancelled>" in r["msg"]:
+                spare -= 1
+                self.ctx.count("unspecified_cancelled_write_future_logs_cancellederror")
+                continue
+            out.append(r)
+        return out
+
+    def track_ghost(self, st):
+        if self.ghost_read and not st.closed() and not st.reading():
+            self.ghost_read = False          # arriving data completed the cancelled read
+            self.ctx.count("cancelled_read_released_by_data")
+
+    def local_close(self, st, *a, **kw):
+        """close() as the application calls it: it must return normally whatever is pending."""
+        self.ctx.count("oracle_evals")
+        try:
+            st.close(*a, **kw)
+        except Exception as e:
+            self.bad(f"close/raises-{type(e).__name__}", "close() raised instead of closing the stream and settling its futures",
+                     {"error": repr(e), "cancelled_futures": self.cancels})
+            return
+        self.ctx.count("local_close_returned")
+
     # ---- reads -------------------------------------------------------
     def issue_read(self, st, req):
         if any(r["state"] == "pending" for r in self.reads) and not st.closed():
             self.ctx.count("reads_skipped_already_reading")
+            return
+        self.track_ghost(st)
+        if self.ghost_read and not st.closed():
+            self.ctx.count("reads_skipped_cancelled_read_still_registered")
             return
         m = M.first_match_end(req, self.S[self.c:]) if req[0] in ("until", "regex") else None
         ent = {"req": req, "fut": None, "buf": None, "m": m, "raised": None, "state": "pending",
@@ -407,6 +539,8 @@ class Run:
             if not ent["closed_at_issue"]:
                 self.events += 1
                 self.ctx.count("pending_read_failed_at_close")
+                if self.cancels:
+                    self.ctx.count("pending_failed_at_close_with_cancelled_sibling")
                 if self.aligned and exp[0] in ("data", "partial"):
                     self.bad(f"read/{kind}-failed-although-buffer-satisfies",
                              "read pending at close failed although the bytes already fetched satisfy it", det)
@@ -505,6 +639,8 @@ class Run:
                 else:
                     self.events += 1
                     self.ctx.count("pending_write_failed_at_close")
+                    if self.cancels:
+                        self.ctx.count("pending_failed_at_close_with_cancelled_sibling")
             else:
                 ent["state"] = "ok"
                 self.ctx.count("writes_succeeded")
@@ -534,6 +670,8 @@ class Run:
         if not self.cb_set_before_close:
             return
         self.ctx.count("close_callback_checked")
+        if self.cancels:
+            self.ctx.count("close_callback_checked_after_cancel")
         self.ctx.count("oracle_evals")
         if self.cb_count != 1:
             self.bad("close-callback/count-%s" % ("zero" if self.cb_count == 0 else "many"),
@@ -556,17 +694,20 @@ def apply_cause(run, st, peer, a2):
     cz = cause[0]
     run.cause_applied = True
     run.ctx.count("cause:" + {"close_tuple": "close_exc", "close_true": "close_exc", "wio": "epipe"}.get(cz, cz))
+    run.track_ghost(st)
+    if run.ghost_read and not st.closed():
+        run.ctx.count("closed_with_cancelled_read_registered")
     if cz == "close":
-        st.close()
+        run.local_close(st)
     elif cz == "close_exc":
-        st.close(exc_info=run.E)
+        run.local_close(st, exc_info=run.E)
     elif cz == "close_tuple":
-        st.close(exc_info=(type(run.E), run.E, None))
+        run.local_close(st, exc_info=(type(run.E), run.E, None))
     elif cz == "close_true":
         try:
             raise run.E
         except Boom:
-            st.close(exc_info=True)
+            run.local_close(st, exc_info=True)
     elif cz == "eof":
         try:
             peer.sock.shutdown(socket.SHUT_WR)
@@ -612,6 +753,7 @@ async def _rw(case, ctx, lm):
 
     async def quiesce():
         await settle()
+        run.track_ghost(st)
         run.poll_reads(st)
         run.poll_writes(st)
 
@@ -655,6 +797,10 @@ async def _rw(case, ctx, lm):
                 await quiesce()
             elif t[0] == "S":
                 await quiesce()
+            elif t[0] == "C":
+                await run.cancel(st, t[1], t[2])
+                run.poll_reads(st)
+                run.poll_writes(st)
         # final phase: deliver the rest, let blocked writes drain (or hit their fault), then probe the closed stream
         if run.ok:
             send(len(S))
@@ -692,7 +838,7 @@ async def _rw(case, ctx, lm):
                 run.bad("stream/error-attribute-mismatch", "stream.error is not the error that closed the stream",
                         {"stream_error": repr(st.error)})
         if run.ok:
-            bad = lm.uncaught()
+            bad = run.uncaught_logs()
             ctx.count("oracle_evals")
             if bad:
                 run.bad("log/uncaught-exception", "close workload produced an uncaught-exception / InvalidStateError log record",
@@ -770,9 +916,11 @@ async def _conn(case, ctx, lm):
                     run.cause = tuple(t[1])
                     closed_by_script = True
                 if t[1][0] == "close":
-                    st.close()
+                    run.local_close(st)
                 else:
-                    st.close(exc_info=run.E)
+                    run.local_close(st, exc_info=run.E)
+            elif t[0] == "C":
+                await run.cancel(st, t[1], t[2])
             elif t[0] == "S":
                 await settle()
                 pump()
@@ -791,6 +939,9 @@ async def _conn(case, ctx, lm):
         if cf["raised"] is not None:
             run.bad(f"connect/raises-{type(cf['raised']).__name__}", "connect() raised instead of returning a future",
                     {"error": repr(cf["raised"])})
+        elif cf.get("cancelled"):
+            # the application gave the connect future up; only the other futures / the callback are constrained
+            ctx.count("connect_future_cancelled_by_application")
         elif not cf["fut"].done():
             if st.closed():
                 run.bad("connect/pending-after-close", "connect future still pending after the stream closed", {})
@@ -855,7 +1006,7 @@ async def _conn(case, ctx, lm):
             if run.ok and run.cb_count > max(1, before):
                 run.bad("close-callback/count-many", "close callback ran again after a second close()", {"count": run.cb_count})
         if run.ok:
-            bad = lm.uncaught()
+            bad = run.uncaught_logs()
             ctx.count("oracle_evals")
             if bad:
                 run.bad("log/uncaught-exception", "connect workload produced an uncaught-exception log record", {"records": bad[:3]})
